@@ -9,13 +9,14 @@
       kk_erase (KKProofs); cg_erase (CGProofs); bc_erase (BCProofs).
     New here: the output-type layer (Model/Output.v), the C06 schema and its instances, and
     the analysis of ckk / ckk_generator / snp / rnp, whose two managers de-duplicate
-    combinations differently (by item names vs. by sums). *)
+    combinations differently (by item names vs. by sums) but, since the children of a CKK node
+    are de-duplicated by their sums, explore the same search tree. *)
 From Prtpy Require Import Base.Prelude Base.Perms Model.Binner Model.Objectives Model.Greedy Model.Packing
   Model.Covering Model.KK Model.CG Model.DP Model.CBLDM Model.InExTree Model.SNP Model.BinCompletion
   Model.Output Spec.Partition
   Proofs.BaseLemmas Proofs.BinnerLemmas Proofs.EnumProofs Proofs.GreedyProofs Proofs.PackingProofs
   Proofs.CoveringProofs Proofs.DPProofs Proofs.KKProofs Proofs.CGProofs Proofs.BCProofs
-  Proofs.CKKOptimal Proofs.SNPProofs.
+  Proofs.CKKOptimal Proofs.SNPProofs Proofs.ObjectivesProofs.
 From Coq Require Import Sorting.Sorted ZifyBool.
 
 (** ---------------------------------------------------------------------------------- *)
@@ -350,27 +351,25 @@ Proof.
 Qed.
 
 (** ---------------------------------------------------------------------------------- *)
-(** * a. complete Karmarkar-Karp: the two managers de-duplicate differently             *)
+(** * a. complete Karmarkar-Karp: the two managers explore the same tree                *)
 (** ---------------------------------------------------------------------------------- *)
 (** BinnerKeepingContents.all_combinations de-duplicates by the sorted item names of the
-    bins, BinnerKeepingSums.all_combinations by the sorted sums.  Two pairings with equal
-    sums and different contents are both explored by the first and only once by the
-    second, so the two searches visit different trees (e.g. 19 vs 16 nodes on
-    [1;1;1;2;3;3;5] with 3 bins) and  rmap erase (ckk true) = ckk false  cannot be proved by
-    a step-by-step simulation.  What is proved here:
-      - [ckk_sums_partition], [ckk_sums_optimal]: the sums manager on its own returns the
-        sums of a genuine partition, of minimum difference (no hypothesis on names);
-      - [ckk_erase_value]: both managers reach the same (optimal) difference when items
-        with equal names have equal values ([names_ok]) and values are non-negative;
-      - [ckk_erase_2]: with two bins the equation  rmap erase (ckk true) = ckk false  is exact.
-    The hypothesis [names_ok] cannot be dropped ([ckk_erase_needs_names_ok]).
-    OPEN: the exact equation  rmap erase (ckk true k) = ckk false k  for k >= 3 under the same
-    hypotheses.  No counterexample was found (vm_compute on all lists of up to 8
-    distinctly named items with values in {1,2,3} / {1,2,4} / {1,2,3,5} for 3, 4 and 5 bins;
-    200000 random runs of the Python library itself with 5..9 items and 3..5 bins), and no
-    proof: the two runs can visit subtrees with tied keys in different orders (the contents
-    manager visits the LAST of several equal-sum combinations first), so two optimal
-    partitions with different sums could in principle be returned. *)
+    bins, BinnerKeepingSums.all_combinations by the sorted sums, so the two managers yield
+    different lists of combinations.  Since the repair "complete Karmarkar-Karp explored
+    different trees with the two bins-managers" the search skips a combination whose vector of
+    sums was already seen at this node ([ckk_children] = [dedup_sums] of [all_combinations]).
+    When items with equal names have equal values ([names_ok]) equal name keys imply equal
+    sums, so the first representative of every sums-class survives the de-duplication by
+    names and the children of a node are, for both managers, the first representatives of the
+    sums-classes of the pairings, in the order of [perms]: [ckk_children_erase].  The two runs
+    are then in lock step ([ckk_explore_erase]): same heaps up to erasure, same incumbent,
+    same number of nodes, same yields.  Proved here, for EVERY number of bins:
+      - [ckk_erase]  :  rmap erase (ckk true k items) = ckk false k items ;
+      - [ckk_generator_erase] (every mode), [ckk_nodes_erase] ;
+      - [ckk_sums_partition], [ckk_sums_optimal]: the sums manager on its own (it never reads
+        the names: [ckk_sums_any_names]) returns the sums of a genuine partition, of minimum
+        difference (no hypothesis on names).
+    The hypothesis [names_ok] cannot be dropped ([ckk_erase_needs_names_ok]). *)
 Section CKKSums.
   Context {A : Type} (valueof nameof : A -> Z).
   Local Notation nonneg := (Forall (fun x : A => 0 <= valueof x)).
@@ -398,159 +397,152 @@ Section CKKSums.
     f_equal. unfold erase. rewrite !map_map. apply map_ext. intros x. reflexivity.
   Qed.
 
-  Lemma erased_key_inj (x y : bins A) :
-    combo_key nameof false (erase x) = combo_key nameof false (erase y) -> erase x = erase y.
+  (** ---- the de-duplication key of the sums manager is the vector of sums ---- *)
+  Definition wrap (s : list Z) : list (list Z) := map (fun z => [z]) s.
+
+  Lemma wrap_inj : forall s t, wrap s = wrap t -> s = t.
   Proof.
-    unfold combo_key, erase. rewrite !map_map. cbn [fst].
-    revert y. induction x as [|a x IH]; intros [|b y] H; cbn [map] in *; try discriminate; [reflexivity|].
-    injection H as H1 H2. rewrite H1. f_equal. apply IH. exact H2.
+    induction s as [|x s IH]; intros [|y t] H; cbn [wrap map] in H; try discriminate; [reflexivity|].
+    injection H as H1 H2. f_equal; [exact H1|apply IH; exact H2].
   Qed.
 
-  (** the combinations the sums manager yields are exactly the erasures of all pairings *)
-  Lemma all_combinations_false_in (b1 b2 : bins A) c :
-    In c (all_combinations nameof false (erase b1) (erase b2)) <->
-    exists p, Permutation p (range (length b1)) /\ c = erase (combo_of_perm nameof true b1 b2 p).
+  Lemma combo_key_false (b : bins A) : combo_key nameof false b = wrap (sums b).
+  Proof. unfold combo_key, wrap, sums. rewrite map_map. reflexivity. Qed.
+
+  Lemma in_map_wrap s seen : In (wrap s) (map wrap seen) <-> In s seen.
   Proof.
-    split.
-    - intros H. apply all_combinations_sound in H. destruct H as (p & Hp & ->).
-      rewrite length_erase in Hp. exists p. split; [exact Hp|apply combo_of_perm_erase].
-    - intros (p & Hp & ->).
-      destruct (all_combinations_complete_gen nameof false (erase b1) (erase b2) p) as (c & Hc & HK).
-      + rewrite length_erase. exact Hp.
-      + pose proof Hc as Hc'. apply all_combinations_sound in Hc'. destruct Hc' as (q & Hq & Ec).
-        rewrite combo_of_perm_erase in Ec, HK. subst c. apply erased_key_inj in HK.
-        rewrite <- HK. exact Hc.
+    split; [|apply in_map].
+    intros H. apply in_map_iff in H. destruct H as (t & E & Ht). apply wrap_inj in E. subst t. exact Ht.
   Qed.
 
-  (** ---- the search tree of the sums manager ---- *)
-  Inductive expands_f : @heap A -> @heap A -> Prop :=
-  | expands_f_refl h : expands_f h h
-  | expands_f_step e1 e2 rest c h' :
-      In c (all_combinations nameof false (snd e1) (snd e2)) ->
-      expands_f (heap_push rest c) h' ->
-      expands_f (e1 :: e2 :: rest) h'.
-
-  Lemma expands_f_ghost (g : @heap A) hf :
-    expands_f (erase_heap g) hf -> exists g', expands_all nameof g g' /\ hf = erase_heap g'.
+  Lemma dedup_false_sums (l : list (bins A)) : forall seen,
+    dedup_combos nameof false (map wrap seen) l = dedup_sums seen l.
   Proof.
-    intros H. remember (erase_heap g) as h eqn:E. revert g E.
-    induction H as [h|e1 e2 rest c h' Hc He IH]; intros g E.
-    - exists g. split; [apply expands_all_refl|exact E].
-    - destruct g as [|x1 [|x2 r]]; cbn [erase_heap map] in E; try discriminate E.
-      injection E as -> -> ->. cbn [erase_entry snd] in Hc.
-      apply all_combinations_false_in in Hc. destruct Hc as (p & Hp & ->).
-      destruct (IH (heap_push r (combo_of_perm nameof true (snd x1) (snd x2) p))) as (g' & Hg' & E').
-      + apply (heap_push_erase r).
-      + exists g'. split; [eapply expands_all_step; eassumption|exact E'].
+    induction l as [|b t IH]; intros seen; [reflexivity|].
+    rewrite dedup_unfold, dedup_sums_unfold, combo_key_false.
+    assert (E : existsb (key_eqb (wrap (sums b))) (map wrap seen) =
+                existsb (list_eqb Z.eqb (sums b)) seen).
+    { apply Bool.eq_true_iff_eq. rewrite existsb_key_In, existsb_sums_In. apply in_map_wrap. }
+    rewrite E. destruct (existsb (list_eqb Z.eqb (sums b)) seen); [apply IH|].
+    f_equal. apply (IH (sums b :: seen)).
   Qed.
 
-  Lemma expands_all_f (g g' : @heap A) :
-    expands_all nameof g g' -> expands_f (erase_heap g) (erase_heap g').
+  Lemma dedup_sums_erase (l : list (bins A)) : forall seen,
+    dedup_sums seen (map erase l) = map erase (dedup_sums seen l).
   Proof.
-    induction 1 as [h|e1 e2 rest p h' Hp He IH]; [apply expands_f_refl|].
-    cbn [erase_heap map].
-    apply (expands_f_step _ _ _ (erase (combo_of_perm nameof true (snd e1) (snd e2) p))).
-    - cbn [erase_entry snd]. apply all_combinations_false_in. exists p. split; [exact Hp|reflexivity].
-    - change (map erase_entry rest) with (erase_heap rest). rewrite heap_push_erase. exact IH.
+    induction l as [|b t IH]; intros seen; [reflexivity|]. cbn [map].
+    rewrite !dedup_sums_unfold, sums_erase.
+    destruct (existsb (list_eqb Z.eqb (sums b)) seen); [apply IH|].
+    cbn [map]. f_equal. apply IH.
   Qed.
 
-  (** ---- invariants along the tree of all pairings ---- *)
-  Lemma child_full_all k its e1 e2 rest p :
-    heap_full valueof k its (e1 :: e2 :: rest) -> Permutation p (range (length (snd e1))) ->
-    heap_full valueof k its (heap_push rest (combo_of_perm nameof true (snd e1) (snd e2) p)).
+  Lemma dedup_sums_idem (l : list (bins A)) : forall seen,
+    dedup_sums seen (dedup_sums seen l) = dedup_sums seen l.
   Proof.
-    intros (H1 & H2 & H3) Hp. split; [apply combo_child_inv; assumption|split].
-    - eapply child_Forall; [exact pushed_sorted_ok|exact H2].
-    - eapply child_Forall; [exact pushed_key_ok|exact H3].
+    induction l as [|b t IH]; intros seen; [reflexivity|].
+    rewrite dedup_sums_unfold.
+    destruct (existsb (list_eqb Z.eqb (sums b)) seen) eqn:E; [apply IH|].
+    rewrite dedup_sums_unfold, E. f_equal. apply IH.
   Qed.
 
-  Lemma expands_all_full k its h h' :
-    expands_all nameof h h' -> heap_full valueof k its h -> heap_full valueof k its h'.
+  (** de-duplicating by names first does not change the de-duplication by sums, as long as
+      equal name keys imply equal sums *)
+  Section TwoKeys.
+    Variable Q : bins A -> Prop.
+    Hypothesis HQ : forall x y, Q x -> Q y ->
+      combo_key nameof true x = combo_key nameof true y -> sums x = sums y.
+
+    Lemma dedup_sums_dedup_combos (l : list (bins A)) : forall seen1 seen2, Forall Q l ->
+      (forall x, In x l -> In (combo_key nameof true x) seen1 -> In (sums x) seen2) ->
+      dedup_sums seen2 (dedup_combos nameof true seen1 l) = dedup_sums seen2 l.
+    Proof.
+      induction l as [|b t IH]; intros s1 s2 HF HI; [reflexivity|].
+      pose proof (Forall_inv HF) as Qb. pose proof (Forall_inv_tail HF) as Qt.
+      rewrite dedup_unfold, (dedup_sums_unfold s2 b t).
+      destruct (existsb (key_eqb (combo_key nameof true b)) s1) eqn:E1.
+      - apply existsb_key_In in E1.
+        assert (E2 : In (sums b) s2) by (apply HI; [left; reflexivity|exact E1]).
+        apply existsb_sums_In in E2. rewrite E2.
+        apply IH; [exact Qt|]. intros x Hx. apply HI. right. exact Hx.
+      - rewrite dedup_sums_unfold.
+        destruct (existsb (list_eqb Z.eqb (sums b)) s2) eqn:E2.
+        + apply IH; [exact Qt|]. intros x Hx [Hk|Hk].
+          * apply existsb_sums_In in E2.
+            rewrite <- (HQ b x Qb (proj1 (Forall_forall Q t) Qt x Hx) Hk). exact E2.
+          * apply HI; [right; exact Hx|exact Hk].
+        + f_equal. apply IH; [exact Qt|]. intros x Hx [Hk|Hk].
+          * left. apply HQ; [exact Qb|exact (proj1 (Forall_forall Q t) Qt x Hx)|exact Hk].
+          * right. apply HI; [right; exact Hx|exact Hk].
+    Qed.
+  End TwoKeys.
+
+  (** a combination: well formed, made of the given items, sorted by sum *)
+  Definition combo_ok (its : list A) (c : bins A) : Prop :=
+    wf valueof c /\ Forall (fun x => In x its) (contents c) /\ StronglySorted Z.le (sums c).
+
+  Lemma combo_ok_key its : names_ok valueof nameof its -> forall x y,
+    combo_ok its x -> combo_ok its y ->
+    combo_key nameof true x = combo_key nameof true y -> sums x = sums y.
   Proof.
-    induction 1 as [h|e1 e2 rest p h' Hp He IH]; intros Hf; [exact Hf|].
-    apply IH. apply child_full_all; assumption.
+    intros HN x y (Wx & Ix & Sx) (Wy & Iy & Sy) HK.
+    apply ObjectivesProofs.sorted_perm_eq; [exact Sx|exact Sy|].
+    apply (key_eq_sums_perm valueof nameof its); assumption.
   Qed.
 
-  Lemma expand_dom_all k its e1 e2 rest p :
-    heap_inv valueof k its (e1 :: e2 :: rest) -> nonneg its ->
-    Permutation p (range (length (snd e1))) ->
-    dom (heap_flat_sums (e1 :: e2 :: rest))
-        (heap_flat_sums (heap_push rest (combo_of_perm nameof true (snd e1) (snd e2) p))).
+  (** the children of a node: the sums manager sees exactly the erasures of the children of
+      the contents manager, in the same order *)
+  Lemma ckk_children_erase k its (b1 b2 : bins A) : names_ok valueof nameof its ->
+    length b1 = k -> length b2 = k -> wf valueof b1 -> wf valueof b2 ->
+    Forall (fun x => In x its) (contents b1) -> Forall (fun x => In x its) (contents b2) ->
+    ckk_children nameof false (erase b1) (erase b2) = map erase (ckk_children nameof true b1 b2).
   Proof.
-    intros Hh Hpos Hp. pose proof (heap_sums_nonneg valueof k its _ Hh Hpos) as HN.
-    destruct Hh as [HF _].
-    destruct (Forall_inv HF) as [L1 _]. destruct (Forall_inv (Forall_inv_tail HF)) as [L2 _].
-    destruct (combo_sums_dom nameof (snd e1) (snd e2) p) as [D1 D2];
-      [congruence|exact Hp|exact (Forall_inv HN)|exact (Forall_inv (Forall_inv_tail HN))|].
-    eapply dom_perm_r; [symmetry; apply flat_push_perm|].
-    unfold heap_flat_sums. cbn [flat_map].
-    apply dom_app; [|apply dom_app].
-    - apply dom_app_r1. eapply dom_perm_r; [symmetry; apply sort_bins_sums_perm|exact D1].
-    - apply dom_app_r1. eapply dom_perm_r; [symmetry; apply sort_bins_sums_perm|exact D2].
-    - apply dom_app_r2, dom_refl.
+    intros HN L1 L2 W1 W2 I1 I2. unfold ckk_children, all_combinations. rewrite length_erase.
+    set (L := map (combo_of_perm nameof true b1 b2) (perms (length b1))).
+    assert (E : map (combo_of_perm nameof false (erase b1) (erase b2)) (perms (length b1)) = map erase L).
+    { unfold L. rewrite map_map. apply map_ext. intros p. apply combo_of_perm_erase. }
+    rewrite E. change (@nil (list (list Z))) with (map wrap []).
+    rewrite dedup_false_sums, dedup_sums_idem, dedup_sums_erase. f_equal. symmetry.
+    apply (dedup_sums_dedup_combos (combo_ok its) (combo_ok_key its HN)).
+    - apply Forall_forall. intros c Hc. unfold L in Hc. apply in_map_iff in Hc.
+      destruct Hc as (p & <- & Hp). apply perms_spec in Hp. rewrite L1 in Hp.
+      destruct (combo_of_perm_ok valueof nameof k b1 b2 p L1 L2 W1 W2 Hp) as (_ & Wc & Pc).
+      split; [exact Wc|]. split.
+      + eapply Permutation_Forall; [symmetry; exact Pc|]. apply Forall_app. split; assumption.
+      + rewrite combo_of_perm_eq. apply sort_bins_sorted.
+    - intros x _ [].
   Qed.
 
-  Lemma expands_all_dom k its h h' : expands_all nameof h h' -> heap_inv valueof k its h ->
-    nonneg its -> dom (heap_flat_sums h) (heap_flat_sums h').
+  (** ---- the two runs are in lock step ---- *)
+  Definition erase_state (st : @ckk_state A) : @ckk_state A :=
+    mk_ckk (ckk_best st) (option_map erase (ckk_part st)) (map erase (ckk_yields st))
+           (ckk_stop st) (ckk_nodes st).
+
+  Definition entry_its (k : nat) (its : list A) (e : @hentry A) : Prop :=
+    length (snd e) = k /\ wf valueof (snd e) /\ Forall (fun x => In x its) (contents (snd e)).
+
+  Lemma entry_its_push k its (b : bins A) :
+    length b = k -> wf valueof b -> Forall (fun x => In x its) (contents b) ->
+    entry_its k its (- bins_diff (sort_bins b), sort_bins b).
   Proof.
-    induction 1 as [h|e1 e2 rest p h' Hp He IH]; intros Hh Hpos; [apply dom_refl|].
-    eapply dom_trans; [eapply expand_dom_all; eassumption|].
-    apply IH; [apply combo_child_inv; assumption|exact Hpos].
+    intros Lb Wb Ib. unfold entry_its. cbn [snd]. split; [|split].
+    - rewrite sort_bins_length. exact Lb.
+    - apply sort_bins_wf. exact Wb.
+    - eapply Permutation_Forall; [symmetry; apply sort_bins_contents|exact Ib].
   Qed.
 
-  (** the pruning bound is admissible for the tree of all pairings as well *)
-  Lemma ckk_bound_admissible_all k its h e lb :
-    heap_full valueof k its h -> nonneg its ->
-    expands_all nameof h [e] -> ckk_bound k h = Some lb -> fst e <= lb.
+  Lemma entry_its_child k its e1 e2 rest c :
+    Forall (entry_its k its) (e1 :: e2 :: rest) ->
+    In c (ckk_children nameof true (snd e1) (snd e2)) ->
+    Forall (entry_its k its) (heap_push rest c).
   Proof.
-    intros Hf Hpos Hex Hb.
-    pose proof (expands_all_full k its _ _ Hex Hf) as (Hinv' & Hs' & Hk').
-    destruct Hf as (Hinv & _ & _).
-    pose proof (expands_all_dom k its _ _ Hex Hinv Hpos) as D.
-    pose proof (flat_total valueof k its _ Hinv) as T1. pose proof (flat_total valueof k its _ Hinv') as T2.
-    pose proof (leaf_key e (Forall_inv Hs') (Forall_inv Hk')) as Hkey.
-    destruct Hinv' as [HF' _]. destruct (Forall_inv HF') as [Le _].
-    unfold heap_flat_sums in D, T2. cbn [flat_map] in D, T2. rewrite app_nil_r in D, T2.
-    fold (heap_flat_sums h) in D.
-    destruct (ckk_bound_eq _ _ _ Hb) as [Hk2 ->]. clear Hb.
-    assert (Hne : heap_flat_sums h <> []).
-    { destruct h as [|e0 t]; [apply expands_all_nil_inv in Hex; discriminate Hex|].
-      destruct Hinv as [HF _]. destruct (Forall_inv HF) as [L0 _].
-      unfold heap_flat_sums. cbn [flat_map]. unfold sums.
-      destruct (snd e0); cbn [length] in L0; [lia|discriminate]. }
-    pose proof (dom_zmax _ _ Hne D) as Hmx.
-    assert (Hse : sums (snd e) <> []).
-    { unfold sums. destruct (snd e); cbn [length] in Le; [lia|discriminate]. }
-    pose proof (zmin_avg _ Hse) as Havg.
-    assert (HLs : Z.of_nat (length (sums (snd e))) = Z.of_nat k).
-    { unfold sums. rewrite map_length. f_equal. exact Le. }
-    rewrite HLs in Havg.
-    set (d := Z.of_nat k - 1) in *. assert (Hd : 0 < d) by lia.
-    set (mx := zmax (heap_flat_sums h)) in *.
-    set (tot := zsum (heap_flat_sums h)) in *.
-    assert (Hq : zmin (sums (snd e)) <= (tot - mx) / d).
-    { apply Z.div_le_lower_bound; [exact Hd|]. lia. }
-    lia.
+    intros HF Hc. destruct (Forall_inv HF) as (L1 & W1 & I1).
+    destruct (Forall_inv (Forall_inv_tail HF)) as (L2 & W2 & I2).
+    apply ckk_children_sound in Hc.
+    destruct (all_combinations_ok valueof nameof k _ _ c L1 L2 W1 W2 Hc) as (Lc & Wc & Pc).
+    apply heap_push_Forall; [exact (Forall_inv_tail (Forall_inv_tail HF))|].
+    apply entry_its_push; [exact Lc|exact Wc|].
+    eapply Permutation_Forall; [symmetry; exact Pc|]. apply Forall_app. split; assumption.
   Qed.
-
-  (** ---- one unfolding of ckk_explore for the sums manager ---- *)
-  Lemma ckk_explore_eq_f fuel mode k h st :
-    ckk_explore nameof false fuel mode k h st =
-    if ckk_stop st then st else
-    if pruned k h (ckk_best st) then tick st else
-    match h with
-    | [] => tick st
-    | [e] => if gt_best (fst e) (ckk_best st) then accept mode e (tick st) else tick st
-    | e1 :: e2 :: rest =>
-        match fuel with
-        | O => tick st
-        | S f => fold_left (fun s c => ckk_explore nameof false f mode k c s)
-                   (rev (sort_asc topdiff
-                      (map (heap_push rest) (all_combinations nameof false (snd e1) (snd e2)))))
-                   (tick st)
-        end
-    end.
-  Proof. destruct fuel; reflexivity. Qed.
 
   Lemma heap_flat_sums_erase (g : @heap A) : heap_flat_sums (erase_heap g) = heap_flat_sums g.
   Proof.
@@ -561,209 +553,162 @@ Section CKKSums.
   Lemma ckk_bound_erase k (g : @heap A) : ckk_bound k (erase_heap g) = ckk_bound k g.
   Proof. unfold ckk_bound. rewrite heap_flat_sums_erase. reflexivity. Qed.
 
-  (** a heap of the sums manager that is the erasure of a well-formed heap *)
-  Definition hfull_f (k : nat) (its : list A) (h : @heap A) : Prop :=
-    exists g, h = erase_heap g /\ heap_full valueof k its g.
+  Lemma topdiff_erase (g : @heap A) : topdiff (erase_heap g) = topdiff g.
+  Proof. destruct g as [|e t]; reflexivity. Qed.
 
-  Lemma hfull_f_child k its e1 e2 rest c :
-    hfull_f k its (e1 :: e2 :: rest) -> In c (all_combinations nameof false (snd e1) (snd e2)) ->
-    hfull_f k its (heap_push rest c).
+  Lemma fold_explore_erase (P : @heap A -> Prop) (F F' : @ckk_state A -> @heap A -> @ckk_state A) :
+    (forall c s, P c -> F' (erase_state s) (erase_heap c) = erase_state (F s c)) ->
+    forall l s, Forall P l ->
+      fold_left F' (map erase_heap l) (erase_state s) = erase_state (fold_left F l s).
   Proof.
-    intros (g & E & Hg) Hc.
-    destruct g as [|x1 [|x2 r]]; cbn [erase_heap map] in E; try discriminate E.
-    injection E as -> -> ->. cbn [erase_entry snd] in Hc.
-    apply all_combinations_false_in in Hc. destruct Hc as (p & Hp & ->).
-    exists (heap_push r (combo_of_perm nameof true (snd x1) (snd x2) p)). split.
-    - apply (heap_push_erase r).
-    - apply child_full_all; assumption.
+    intros HS. induction l as [|c t IH]; intros s HF; cbn [map fold_left]; [reflexivity|].
+    rewrite HS by exact (Forall_inv HF). apply IH. exact (Forall_inv_tail HF).
   Qed.
 
-  (** a leaf of the sums manager's tree is the erasure of a leaf of the tree of all pairings *)
-  Lemma leaf_ghost k its h e : hfull_f k its h -> expands_f h [e] ->
-    exists g e', h = erase_heap g /\ heap_full valueof k its g /\
-                 expands_all nameof g [e'] /\ e = erase_entry e' /\ heap_full valueof k its [e'].
+  Theorem ckk_explore_erase k its mode : names_ok valueof nameof its ->
+    forall fuel h st, Forall (entry_its k its) h ->
+      ckk_explore nameof false fuel mode k (erase_heap h) (erase_state st) =
+      erase_state (ckk_explore nameof true fuel mode k h st).
   Proof.
-    intros (g & -> & Hg) Hex. destruct (expands_f_ghost g _ Hex) as (g' & Hg' & E).
-    destruct g' as [|e' [|e'' t]]; cbn [erase_heap map] in E; try discriminate E.
-    injection E as ->. exists g, e'.
-    split; [reflexivity|]. split; [exact Hg|]. split; [exact Hg'|]. split; [reflexivity|].
-    eapply expands_all_full; eassumption.
+    intros HN. induction fuel as [|f IH]; intros h st Hh.
+    - cbn [ckk_explore]. change (ckk_stop (erase_state st)) with (ckk_stop st).
+      destruct (ckk_stop st); [reflexivity|]. rewrite ckk_bound_erase.
+      cbn [ckk_best ckk_part ckk_yields ckk_nodes erase_state].
+      destruct (match ckk_bound k h with Some lb => le_best lb (ckk_best st) | None => false end);
+        [reflexivity|].
+      destruct h as [|e1 [|e2 rest]]; cbn [erase_heap map]; try reflexivity.
+      change (fst (erase_entry e1)) with (fst e1).
+      destruct (gt_best (fst e1) (ckk_best st)); [|reflexivity].
+      destruct mode; reflexivity.
+    - cbn [ckk_explore]. change (ckk_stop (erase_state st)) with (ckk_stop st).
+      destruct (ckk_stop st); [reflexivity|]. rewrite ckk_bound_erase.
+      cbn [ckk_best ckk_part ckk_yields ckk_nodes erase_state].
+      destruct (match ckk_bound k h with Some lb => le_best lb (ckk_best st) | None => false end);
+        [reflexivity|].
+      destruct h as [|e1 [|e2 rest]]; cbn [erase_heap map]; try reflexivity.
+      + change (fst (erase_entry e1)) with (fst e1).
+        destruct (gt_best (fst e1) (ckk_best st)); [|reflexivity].
+        destruct mode; reflexivity.
+      + fold (erase_heap rest). cbv zeta. cbn [erase_entry snd].
+        destruct (Forall_inv Hh) as (L1 & W1 & I1).
+        destruct (Forall_inv (Forall_inv_tail Hh)) as (L2 & W2 & I2).
+        rewrite (ckk_children_erase k its (snd e1) (snd e2) HN L1 L2 W1 W2 I1 I2).
+        set (cs := ckk_children nameof true (snd e1) (snd e2)).
+        assert (E : rev (sort_asc topdiff (map (heap_push (erase_heap rest)) (map erase cs))) =
+                    map erase_heap (rev (sort_asc topdiff (map (heap_push rest) cs)))).
+        { rewrite map_rev. f_equal.
+          rewrite (sort_asc_map erase_heap topdiff topdiff _ topdiff_erase). f_equal.
+          rewrite !map_map. apply map_ext. intros b. apply heap_push_erase. }
+        rewrite E.
+        change (mk_ckk (ckk_best st) (option_map erase (ckk_part st)) (map erase (ckk_yields st))
+                       false (S (ckk_nodes st)))
+          with (erase_state (mk_ckk (ckk_best st) (ckk_part st) (ckk_yields st) false (S (ckk_nodes st)))).
+        apply (fold_explore_erase (fun c => Forall (entry_its k its) c)).
+        * intros c s Hc. apply IH. exact Hc.
+        * apply Forall_forall. intros c Hc. apply in_rev, sort_asc_In in Hc.
+          apply in_map_iff in Hc. destruct Hc as (b & <- & Hb).
+          eapply entry_its_child; [exact Hh|exact Hb].
   Qed.
 
-  Lemma prune_sound_f k its h e best :
-    hfull_f k its h -> nonneg its -> pruned k h best = true -> expands_f h [e] ->
-    gt_best (fst e) best = false.
+  (** the initial heap *)
+  Lemma singleton_bins_items k x its : In x its ->
+    Forall (fun y => In y its) (contents (singleton_bins valueof true k x)).
   Proof.
-    intros Hh Hpos Hp Hex.
-    destruct (leaf_ghost k its h e Hh Hex) as (g & e' & -> & Hg & Hall & -> & _).
-    unfold pruned in Hp. rewrite ckk_bound_erase in Hp.
-    destruct (ckk_bound k g) as [lb|] eqn:Hb; [|discriminate].
-    pose proof (ckk_bound_admissible_all k its g e' lb Hg Hpos Hall Hb) as Hle.
-    cbn [erase_entry fst].
-    destruct best as [b|]; cbn [le_best] in Hp; [|discriminate].
-    cbn [gt_best]. lia.
+    intros Hx. destruct k as [|n].
+    - unfold singleton_bins, add_item. cbn. constructor.
+    - rewrite (singleton_bins_contents valueof (S n) x) by lia. constructor; [exact Hx|constructor].
   Qed.
 
-  Lemma leaf_nonpos_f k its h e : hfull_f k its h -> expands_f h [e] -> fst e <= 0.
+  Lemma initial_heap_its k items : Forall (entry_its k items) (initial_heap valueof true k items).
   Proof.
-    intros Hh Hex. destruct (leaf_ghost k its h e Hh Hex) as (g & e' & _ & _ & _ & -> & (_ & Hs & Hk)).
-    cbn [erase_entry fst]. rewrite (leaf_key e' (Forall_inv Hs) (Forall_inv Hk)).
-    pose proof (zmin_le_zmax (sums (snd e'))). lia.
+    unfold initial_heap.
+    assert (G : forall l (h : @heap A), Forall (fun x => In x items) l -> Forall (entry_its k items) h ->
+              Forall (entry_its k items)
+                (fold_left (fun h x => heap_push h (singleton_bins valueof true k x)) l h)).
+    { induction l as [|x t IHl]; intros h Hl Hh; cbn [fold_left]; [exact Hh|].
+      apply IHl; [exact (Forall_inv_tail Hl)|].
+      apply heap_push_Forall; [exact Hh|]. apply entry_its_push.
+      - apply singleton_bins_length.
+      - apply singleton_bins_wf.
+      - apply singleton_bins_items. exact (Forall_inv Hl). }
+    apply G; [|constructor].
+    apply Forall_forall. intros x Hx. eapply Permutation_in; [apply sort_desc_perm|exact Hx].
   Qed.
 
-  (** the incumbent of the sums manager is the erasure of a complete, well-formed partition *)
-  Definition finv (k : nat) (its : list A) (st : @ckk_state A) : Prop :=
-    forall d, ckk_best st = Some d ->
-      exists e, heap_full valueof k its [e] /\ fst e = d /\ ckk_part st = Some (erase (snd e)).
-
-  Definition fspec (k : nat) (its : list A) (f : nat) : Prop :=
-    forall h st, hfull_f k its h -> (length h <= S f)%nat -> stop_ok st -> finv k its st ->
-      stop_ok (ckk_explore nameof false f true k h st) /\
-      best_le st (ckk_explore nameof false f true k h st) /\
-      (forall e, expands_f h [e] -> covers (ckk_explore nameof false f true k h st) e) /\
-      finv k its (ckk_explore nameof false f true k h st).
-
-  Lemma fold_fspec k its f : fspec k its f ->
-    forall L st,
-      (forall c, In c L -> hfull_f k its c /\ (length c <= S f)%nat) -> stop_ok st -> finv k its st ->
-      stop_ok (fold_left (fun s c => ckk_explore nameof false f true k c s) L st) /\
-      best_le st (fold_left (fun s c => ckk_explore nameof false f true k c s) L st) /\
-      (forall c e, In c L -> expands_f c [e] ->
-         covers (fold_left (fun s c => ckk_explore nameof false f true k c s) L st) e) /\
-      finv k its (fold_left (fun s c => ckk_explore nameof false f true k c s) L st).
+  Theorem ckk_run_erase mode init k items : names_ok valueof nameof items ->
+    ckk_run valueof nameof false mode init k items =
+    erase_state (ckk_run valueof nameof true mode init k items).
   Proof.
-    intros IHf. induction L as [|c0 cs IH]; intros st HL Hso Hfi; cbn [fold_left].
-    - split; [exact Hso|]. split; [apply best_le_refl|]. split; [intros c e []|exact Hfi].
-    - destruct (HL c0 (or_introl eq_refl)) as [Hf0 Hl0].
-      destruct (IHf c0 st Hf0 Hl0 Hso Hfi) as (S1 & B1 & C1 & F1).
-      destruct (IH (ckk_explore nameof false f true k c0 st)) as (S2 & B2 & C2 & F2);
-        [intros c Hc; apply HL; right; exact Hc|exact S1|exact F1|].
-      split; [exact S2|]. split; [eapply best_le_trans; eassumption|]. split; [|exact F2].
-      intros c e [<-|Hc] Hex.
-      + eapply covers_mono; [exact B2|]. apply C1. exact Hex.
-      + eapply C2; eassumption.
+    intros HN. unfold ckk_run. rewrite initial_heap_erase.
+    change (mk_ckk init None [] false 0) with (erase_state (mk_ckk init None [] false 0)) at 1.
+    apply (ckk_explore_erase k items mode HN). apply initial_heap_its.
   Qed.
 
-  Lemma expands_f_nil_inv h' : expands_f [] h' -> h' = [].
+  (** the exact agreement of the two managers, any number of bins *)
+  Theorem ckk_erase : forall k items, names_ok valueof nameof items ->
+    rmap erase (ckk valueof nameof true k items) = ckk valueof nameof false k items.
   Proof.
-    intros H. remember (@nil (@hentry A)) as h0 eqn:E.
-    destruct H as [h|e1 e2 rest c h' Hc He]; [reflexivity|discriminate E].
+    intros k items HN. unfold ckk. rewrite (ckk_run_erase true None k items HN).
+    cbn [erase_state ckk_part].
+    destruct (ckk_part (ckk_run valueof nameof true true None k items)) as [b|]; cbn [option_map rmap];
+      [|reflexivity].
+    rewrite sort_bins_erase. reflexivity.
   Qed.
 
-  Lemma expands_f_single_inv e1 h' : expands_f [e1] h' -> h' = [e1].
+  Corollary ckk_erase_sums : forall k items, names_ok valueof nameof items ->
+    rmap sums (ckk valueof nameof true k items) = rmap sums (ckk valueof nameof false k items).
   Proof.
-    intros H. remember [e1] as h0 eqn:E.
-    destruct H as [h|x1 x2 rest c h' Hc He]; [reflexivity|discriminate E].
+    intros k items HN. rewrite <- (ckk_erase k items HN).
+    destruct (ckk valueof nameof true k items) as [b|e]; cbn [rmap]; [|reflexivity].
+    rewrite sums_erase. reflexivity.
   Qed.
 
-  Lemma expands_f_cons2_leaf_inv e1 e2 rest e : expands_f (e1 :: e2 :: rest) [e] ->
-    exists c, In c (all_combinations nameof false (snd e1) (snd e2)) /\
-              expands_f (heap_push rest c) [e].
+  (** the generator, every mode: the same partitions are yielded, in the same order *)
+  Theorem ckk_generator_erase : forall k items init, names_ok valueof nameof items ->
+    map erase (ckk_generator valueof nameof true k items init) =
+    ckk_generator valueof nameof false k items init.
   Proof.
-    intros H. remember (e1 :: e2 :: rest) as h0 eqn:E. remember [e] as h1 eqn:E1.
-    destruct H as [h|x1 x2 r c h' Hc He].
-    - subst h. discriminate E1.
-    - injection E as -> -> ->. subst h'. exists c. split; assumption.
+    intros k items init HN. unfold ckk_generator. rewrite (ckk_run_erase _ init k items HN).
+    cbn [erase_state ckk_yields]. rewrite map_rev. reflexivity.
   Qed.
 
-  Lemma fspec_step k its fuel : nonneg its ->
-    (forall f, fuel = S f -> fspec k its f) -> fspec k its fuel.
-  Proof.
-    intros Hpos IH h st Hf HL Hso Hfi. rewrite ckk_explore_eq_f.
-    destruct (ckk_stop st) eqn:Es.
-    - split; [exact Hso|]. split; [apply best_le_refl|]. split; [|exact Hfi].
-      intros e He. exists 0. split; [apply Hso; exact Es|].
-      eapply leaf_nonpos_f; eassumption.
-    - assert (St : stop_ok (tick st)) by (intros H; discriminate H).
-      assert (Bt : best_le st (tick st)) by (exact (best_le_refl st)).
-      assert (Ft : finv k its (tick st)) by exact Hfi.
-      destruct (pruned k h (ckk_best st)) eqn:Ep.
-      + split; [exact St|]. split; [exact Bt|]. split; [|exact Ft].
-        intros e He. pose proof (prune_sound_f k its h e _ Hf Hpos Ep He) as G.
-        unfold covers. cbn [tick ckk_best].
-        destruct (ckk_best st) as [b|]; cbn [gt_best] in G; [|discriminate].
-        exists b. split; [reflexivity|lia].
-      + destruct h as [|e1 [|e2 rest]].
-        * split; [exact St|]. split; [exact Bt|]. split; [|exact Ft].
-          intros e He. apply expands_f_nil_inv in He. discriminate He.
-        * destruct (gt_best (fst e1) (ckk_best st)) eqn:G.
-          -- split; [|split; [|split]].
-             ++ unfold stop_ok, accept. cbn [ckk_stop ckk_best]. intros H. f_equal. lia.
-             ++ intros b Hb. exists (fst e1). unfold accept. cbn [ckk_best].
-                split; [reflexivity|]. rewrite Hb in G. cbn [gt_best] in G. lia.
-             ++ intros e He. apply expands_f_single_inv in He. injection He as ->.
-                exists (fst e1). unfold accept. cbn [ckk_best].
-                split; [reflexivity|lia].
-             ++ intros d Hd. unfold accept in Hd. cbn [ckk_best] in Hd. injection Hd as <-.
-                destruct Hf as (g & E & Hg).
-                destruct g as [|x1 [|x2 r]]; cbn [erase_heap map] in E; try discriminate E.
-                injection E as ->. exists x1. split; [exact Hg|]. split; reflexivity.
-          -- split; [exact St|]. split; [exact Bt|]. split; [|exact Ft].
-             intros e He. apply expands_f_single_inv in He. injection He as ->.
-             unfold covers. cbn [tick ckk_best].
-             destruct (ckk_best st) as [b|]; cbn [gt_best] in G; [|discriminate].
-             exists b. split; [reflexivity|lia].
-        * destruct fuel as [|f]; [cbn [length] in HL; lia|].
-          destruct (fold_fspec k its f (IH f eq_refl)
-                      (rev (sort_asc topdiff
-                         (map (heap_push rest) (all_combinations nameof false (snd e1) (snd e2)))))
-                      (tick st))
-            as (S2 & B2 & C2 & F2).
-          -- intros c Hc. apply in_rev in Hc. apply sort_asc_In in Hc.
-             apply in_map_iff in Hc. destruct Hc as (comb & <- & Hcomb).
-             split; [eapply hfull_f_child; eassumption|].
-             rewrite heap_push_length. cbn [length] in HL. lia.
-          -- exact St.
-          -- exact Ft.
-          -- split; [exact S2|]. split; [exact B2|]. split; [|exact F2].
-             intros e He. destruct (expands_f_cons2_leaf_inv _ _ _ _ He) as (c & Hc & Hex').
-             eapply C2; [|exact Hex'].
-             apply -> in_rev. apply sort_asc_In. apply in_map. exact Hc.
-  Qed.
+  (** the two searches pop the same number of heaps *)
+  Corollary ckk_nodes_erase : forall mode init k items, names_ok valueof nameof items ->
+    ckk_nodes (ckk_run valueof nameof false mode init k items) =
+    ckk_nodes (ckk_run valueof nameof true mode init k items).
+  Proof. intros mode init k items HN. rewrite (ckk_run_erase mode init k items HN). reflexivity. Qed.
+End CKKSums.
 
-  Lemma fspec_all k its : nonneg its -> forall fuel, fspec k its fuel.
-  Proof.
-    intros Hpos. induction fuel as [|f IH]; apply fspec_step; try exact Hpos.
-    - intros f E. discriminate.
-    - intros f' E. injection E as <-. exact IH.
-  Qed.
+(** the sums manager never reads the names *)
+Lemma ckk_run_sums_any_names {A} (valueof nameof nameof' : A -> Z) mode init k items :
+  ckk_run valueof nameof false mode init k items = ckk_run valueof nameof' false mode init k items.
+Proof. reflexivity. Qed.
 
-  (** ---- the run of the sums manager ---- *)
-  Lemma leaf_key_full k its (e : @hentry A) : heap_full valueof k its [e] ->
-    fst e = - (zmax (sums (snd e)) - zmin (sums (snd e))).
-  Proof. intros (_ & Hs & Hk). apply leaf_key; [exact (Forall_inv Hs)|exact (Forall_inv Hk)]. Qed.
+Lemma ckk_sums_any_names {A} (valueof nameof nameof' : A -> Z) k items :
+  ckk valueof nameof false k items = ckk valueof nameof' false k items.
+Proof. reflexivity. Qed.
 
-  Lemma ckk_false_run k items : (1 <= k)%nat -> items <> [] -> nonneg items ->
-    exists e, heap_full valueof k items [e] /\
-      ckk_part (ckk_run valueof nameof false true None k items) = Some (erase (snd e)) /\
-      forall e', expands_all nameof (initial_heap valueof true k items) [e'] -> fst e' <= fst e.
+Section CKKSumsManager.
+  Context {A : Type} (valueof nameof : A -> Z).
+  Local Notation nonneg := (Forall (fun x : A => 0 <= valueof x)).
+
+  (** hence, whatever the names, its run is the erasure of the contents run with names := values *)
+  Lemma ckk_sums_as_values k items :
+    ckk valueof nameof false k items = rmap erase (ckk valueof valueof true k items).
   Proof.
-    intros Hk Hne Hpos. unfold ckk_run. rewrite initial_heap_erase.
-    destruct (fspec_all k items Hpos (length items) (erase_heap (initial_heap valueof true k items))
-                (mk_ckk None None [] false O)) as (_ & _ & HC & HF).
-    - exists (initial_heap valueof true k items). split; [reflexivity|apply initial_heap_full; exact Hk].
-    - rewrite <- initial_heap_erase, initial_heap_length. lia.
-    - intros H. discriminate H.
-    - intros d H. discriminate H.
-    - destruct (kk_partition valueof k items Hk Hne) as (b0 & _ & Hp0).
-      destruct (expands_all_complete valueof nameof k items (sums b0) Hk Hne
-                  (CKKOptimal.partition_attainable valueof k items b0 Hp0)) as (e0 & He0 & _).
-      destruct (HC (erase_entry e0) (expands_all_f _ [e0] He0)) as (d & Hd & _).
-      destruct (HF d Hd) as (e & Hfe & Hde & Hpart). exists e. split; [exact Hfe|]. split; [exact Hpart|].
-      intros e' He'. destruct (HC (erase_entry e') (expands_all_f _ [e'] He')) as (d' & Hd' & Hle).
-      rewrite Hd in Hd'. injection Hd' as <-. cbn [erase_entry fst] in Hle. lia.
+    rewrite (ckk_erase valueof valueof k items (names_ok_values valueof items)). reflexivity.
   Qed.
 
   (** C01 for the sums manager: the reported sums are those of a genuine partition *)
-  Theorem ckk_sums_partition : forall k items, (1 <= k)%nat -> items <> [] -> nonneg items ->
+  Theorem ckk_sums_partition : forall k items, (1 <= k)%nat -> items <> [] ->
     exists bt, is_partition valueof k items bt /\ StronglySorted Z.le (sums bt) /\
                ckk valueof nameof false k items = Ok (erase bt).
   Proof.
-    intros k items Hk Hne Hpos. destruct (ckk_false_run k items Hk Hne Hpos) as (e & Hfe & Hpart & _).
-    exists (sort_bins (snd e)). split; [|split].
-    - apply sort_bins_partition. apply single_heap_partition. exact (proj1 Hfe).
-    - apply sort_bins_sorted.
-    - unfold ckk. rewrite Hpart, sort_bins_erase. reflexivity.
+    intros k items Hk Hne. rewrite ckk_sums_as_values.
+    destruct (ckk_partition valueof valueof k items Hk Hne) as (bt & Et & Hpt).
+    exists bt. split; [exact Hpt|]. split; [|rewrite Et; reflexivity].
+    unfold ckk in Et. destruct (ckk_part _) as [b|]; [|discriminate Et]. injection Et as <-.
+    apply sort_bins_sorted.
   Qed.
 
   (** C02 for the sums manager (no hypothesis on names: it never looks at them) *)
@@ -771,93 +716,29 @@ Section CKKSums.
     ckk valueof nameof false k items = Ok b ->
     Opt MinDiff k (map valueof items) (value MinDiff (sums b) false).
   Proof.
-    intros k items b Hk Hne Hpos Hckk.
-    destruct (ckk_false_run k items Hk Hne Hpos) as (e & Hfe & Hpart & Hbest).
-    unfold ckk in Hckk. rewrite Hpart in Hckk. injection Hckk as <-.
-    assert (HP : Permutation (sums (sort_bins (erase (snd e)))) (sums (snd e))).
-    { rewrite sort_bins_sums_perm, sums_erase. apply Permutation_refl. }
-    cbn [value]. rewrite (zmax_perm _ _ HP), (zmin_perm _ _ HP).
-    pose proof (leaf_key_full k items e Hfe) as Ke.
-    split.
-    - exists (sums (snd e)). split; [|reflexivity].
-      apply CKKOptimal.partition_attainable. apply single_heap_partition. exact (proj1 Hfe).
-    - intros s Hs.
-      destruct (expands_all_complete valueof nameof k items s Hk Hne Hs) as (e' & He' & HPs).
-      pose proof (Hbest e' He') as Hle.
-      pose proof (expands_all_full k items _ _ He' (initial_heap_full valueof k items Hk)) as Hfe'.
-      pose proof (leaf_key_full k items e' Hfe') as Ke'.
-      cbn [value]. rewrite <- (zmax_perm _ _ HPs), <- (zmin_perm _ _ HPs). lia.
+    intros k items b Hk Hne Hpos Hckk. rewrite ckk_sums_as_values in Hckk.
+    destruct (ckk valueof valueof true k items) as [bt|e] eqn:Et; [|discriminate Hckk].
+    cbn [rmap] in Hckk. injection Hckk as <-. rewrite sums_erase.
+    apply (ckk_optimal_values valueof k items bt Hk Hne Hpos Et).
   Qed.
+End CKKSumsManager.
+(** kept for the users of the former partial results (both are instances of [ckk_erase]) *)
+Section CKKSumsOld.
+  Context {A : Type} (valueof nameof : A -> Z).
+  Local Notation nonneg := (Forall (fun x : A => 0 <= valueof x)).
 
-  Lemma Opt_unique o k vs v1 v2 : Opt o k vs v1 -> Opt o k vs v2 -> v1 = v2.
-  Proof.
-    intros [(s1 & A1 & E1) L1] [(s2 & A2 & E2) L2].
-    pose proof (L1 s2 A2). pose proof (L2 s1 A1). lia.
-  Qed.
-
-  (** the two managers reach the same optimal difference *)
-  Theorem ckk_erase_value : forall k items, (1 <= k)%nat -> items <> [] -> nonneg items ->
-    names_ok valueof nameof items ->
-    exists bt bf, ckk valueof nameof true k items = Ok bt /\ ckk valueof nameof false k items = Ok bf /\
-                  is_partition valueof k items bt /\
-                  zmax (sums bf) - zmin (sums bf) = zmax (sums bt) - zmin (sums bt).
-  Proof.
-    intros k items Hk Hne Hpos HN.
-    destruct (ckk_partition valueof nameof k items Hk Hne) as (bt & Et & Hpt).
-    destruct (ckk_sums_partition k items Hk Hne Hpos) as (bf' & _ & _ & Ef).
-    exists bt, (erase bf'). split; [exact Et|]. split; [exact Ef|]. split; [exact Hpt|].
-    pose proof (ckk_optimal valueof nameof k items bt Hk Hne Hpos HN Et) as O1.
-    pose proof (ckk_sums_optimal k items _ Hk Hne Hpos Ef) as O2.
-    exact (Opt_unique _ _ _ _ _ O2 O1).
-  Qed.
-
-  Lemma erase_eq_sums (x y : bins A) : sums x = sums y -> erase x = erase y.
-  Proof.
-    unfold sums, erase. revert y. induction x as [|a x IH]; intros [|b y] H; cbn [map] in *;
-      try discriminate; [reflexivity|].
-    injection H as H1 H2. rewrite H1. f_equal. apply IH. exact H2.
-  Qed.
-
-  Lemma sorted2_determined (a b c d : Z) :
-    a <= b -> c <= d -> a + b = c + d -> zmax [a; b] - zmin [a; b] = zmax [c; d] - zmin [c; d] ->
-    a = c /\ b = d.
-  Proof. cbn [zmax zmin zmax_list zmin_list]. lia. Qed.
-
-  (** with two bins the optimal difference determines the sums: the equation is exact *)
   Theorem ckk_erase_2 : forall items, nonneg items -> names_ok valueof nameof items ->
     rmap erase (ckk valueof nameof true 2 items) = ckk valueof nameof false 2 items.
-  Proof.
-    intros items Hpos HN. destruct items as [|x0 xs]; [reflexivity|].
-    set (items := x0 :: xs) in *. assert (Hne : items <> []) by discriminate.
-    assert (Hk : (1 <= 2)%nat) by lia.
-    destruct (ckk_erase_value 2 items Hk Hne Hpos HN) as (bt & bf & Et & Ef & Hpt & Hd).
-    destruct (ckk_sums_partition 2 items Hk Hne Hpos) as (bf' & Hpf & Hsf & Ef').
-    rewrite Ef in Ef'. injection Ef' as ->. rewrite sums_erase in Hd.
-    rewrite Et, Ef. cbn [rmap]. f_equal. apply erase_eq_sums.
-    assert (Hst : StronglySorted Z.le (sums bt)).
-    { unfold ckk in Et. destruct (ckk_part _) as [b|]; [|discriminate Et]. injection Et as <-.
-      apply sort_bins_sorted. }
-    destruct Hpt as (Pt & Lt & Wt). destruct Hpf as (Pf & Lf & Wf).
-    pose proof (wf_total valueof bt Wt) as Tt. pose proof (wf_total valueof bf' Wf) as Tf.
-    rewrite (zsum_perm _ _ (Permutation_map valueof Pt)) in Tt.
-    rewrite (zsum_perm _ _ (Permutation_map valueof Pf)) in Tf.
-    destruct bt as [|[a la] [|[b lb] [|? ?]]]; cbn [length] in Lt; try discriminate Lt.
-    destruct bf' as [|[c lc] [|[d ld] [|? ?]]]; cbn [length] in Lf; try discriminate Lf.
-    cbn [sums map fst] in *.
-    inversion Hst as [|? ? _ Hab]; subst. inversion Hsf as [|? ? _ Hcd]; subst.
-    pose proof (Forall_inv Hab) as Hab'. pose proof (Forall_inv Hcd) as Hcd'.
-    cbn [zsum fold_right] in Tt, Tf.
-    destruct (sorted2_determined a b c d Hab' Hcd') as [-> ->]; [lia|symmetry; exact Hd|reflexivity].
-  Qed.
-End CKKSums.
+  Proof. intros items _ HN. apply ckk_erase. exact HN. Qed.
+End CKKSumsOld.
 
 (** ---------------------------------------------------------------------------------- *)
 (** * a. snp and rnp                                                                    *)
 (** ---------------------------------------------------------------------------------- *)
 (** Both algorithms only consult the manager through the sums, bin_of / the final
     concatenations, and the two-way ckk at the leaves; rnp's even case always runs the
-    generator with a contents manager.  With [ckk_erase_2] for the leaves the erase
-    equation is exact. *)
+    generator with a contents manager.  With [ckk_erase_2] (an instance of [ckk_erase]) for
+    the leaves the erase equation is exact. *)
 Section SNPErase.
   Context {A : Type} (valueof nameof : A -> Z).
   Local Notation nonneg := (Forall (fun x : A => 0 <= valueof x)).
@@ -1090,34 +971,24 @@ Section InstancesCKK.
   Context {A : Type} (valueof nameof : A -> Z).
   Local Notation nonneg := (Forall (fun x : A => 0 <= valueof x)).
 
-  (** two bins: every sums-family output *)
-  Theorem C06_ckk_2 : forall o items, keeps o = false -> nonneg items -> names_ok valueof nameof items ->
-    run_output_r o (fun keep => ckk valueof nameof keep 2 items) =
-    rmap (fun b => derive o (sums b)) (ckk valueof nameof true 2 items).
+  (** every sums-family output, any number of bins *)
+  Theorem C06_ckk : forall o k items, keeps o = false -> names_ok valueof nameof items ->
+    run_output_r o (fun keep => ckk valueof nameof keep k items) =
+    rmap (fun b => derive o (sums b)) (ckk valueof nameof true k items).
   Proof.
-    intros o items Hk Hpos HN.
-    apply (C06_schema_r (fun keep => ckk valueof nameof keep 2 items)); [|exact Hk].
-    apply ckk_erase_2; assumption.
+    intros o k items Hk HN.
+    apply (C06_schema_r (fun keep => ckk valueof nameof keep k items)); [|exact Hk].
+    apply ckk_erase. exact HN.
   Qed.
 
-  (** any number of bins: the Difference output (and the bin count) *)
-  Theorem C06_ckk_difference : forall k items, (1 <= k)%nat -> items <> [] -> nonneg items ->
-    names_ok valueof nameof items ->
-    run_output_r ODifference (fun keep => ckk valueof nameof keep k items) =
-    rmap (fun b => derive ODifference (sums b)) (ckk valueof nameof true k items).
-  Proof.
-    intros k items Hk Hne Hpos HN. unfold run_output_r. cbn [keeps].
-    destruct (ckk_erase_value valueof nameof k items Hk Hne Hpos HN) as (bt & bf & Et & Ef & _ & Hd).
-    rewrite Ef, Et. cbn [rmap extract derive]. rewrite Hd. reflexivity.
-  Qed.
-
-  Theorem C06_ckk_bincount : forall k items, (1 <= k)%nat -> items <> [] -> nonneg items ->
+  (** the bin count needs no hypothesis on the names *)
+  Theorem C06_ckk_bincount : forall k items, (1 <= k)%nat -> items <> [] ->
     run_output_r OBinCount (fun keep => ckk valueof nameof keep k items) =
     rmap (fun b => derive OBinCount (sums b)) (ckk valueof nameof true k items).
   Proof.
-    intros k items Hk Hne Hpos. unfold run_output_r. cbn [keeps].
+    intros k items Hk Hne. unfold run_output_r. cbn [keeps].
     destruct (ckk_partition valueof nameof k items Hk Hne) as (bt & Et & (_ & Lt & _)).
-    destruct (ckk_sums_partition valueof nameof k items Hk Hne Hpos) as (bf & (_ & Lf & _) & _ & Ef).
+    destruct (ckk_sums_partition valueof nameof k items Hk Hne) as (bf & (_ & Lf & _) & _ & Ef).
     rewrite Ef, Et. cbn [rmap extract derive]. rewrite sums_erase. unfold sums. rewrite !map_length.
     f_equal. f_equal. transitivity k; [exact Lf|symmetry; exact Lt].
   Qed.
@@ -1167,33 +1038,34 @@ Example rnp_erase_needs_names_ok :
   rnp zid (fun _ => 0) false 2 [4; 5; 6; 7; 8] = Ok [(15, []); (15, [])].
 Proof. vm_compute. split; reflexivity. Qed.
 
-(** the two searches are different even when the answers agree: numbers of heaps popped *)
-Example ckk_managers_search_differently :
-  ckk_nodes (ckk_run zid zid true true None 3 [1; 1; 1; 2; 3; 3; 5]) = 19%nat /\
+(** the two searches pop the same heaps (before the repair: 19 and 16 nodes on this input) *)
+Example ckk_managers_search_alike :
+  ckk_nodes (ckk_run zid zid true true None 3 [1; 1; 1; 2; 3; 3; 5]) = 16%nat /\
   ckk_nodes (ckk_run zid zid false true None 3 [1; 1; 1; 2; 3; 3; 5]) = 16%nat /\
   rmap erase (ckk zid zid true 3 [1; 1; 1; 2; 3; 3; 5]) = ckk zid zid false 3 [1; 1; 1; 2; 3; 3; 5].
 Proof. vm_compute. repeat split; reflexivity. Qed.
 
-(** ckk_generator.  With an explicit bound (the mode used by rnp) every partition better
-    than the bound is yielded; the contents manager yields partitions that differ only in
-    their contents separately, the sums manager yields each vector of sums once: the
-    equation  map erase (generator true) = generator false  is FALSE, even with two bins,
-    distinct names and positive values. *)
+(** the former witnesses of disagreement (four bins, plain and named; five bins; see
+    Proofs/CKKManagersProofs.v) *)
+Example ckk_erase_former_witnesses :
+  rmap erase (ckk zid zid true 4 [4; 5; 7; 9; 10; 10; 12; 14; 15]) =
+    ckk zid zid false 4 [4; 5; 7; 9; 10; 10; 12; 14; 15] /\
+  ckk zid zid false 4 [4; 5; 7; 9; 10; 10; 12; 14; 15] = Ok [(20, []); (20, []); (23, []); (23, [])] /\
+  rmap erase (ckk zid zid true 5 [3; 4; 5; 6; 7; 8; 9; 11; 12; 13; 13]) =
+    ckk zid zid false 5 [3; 4; 5; 6; 7; 8; 9; 11; 12; 13; 13].
+Proof. vm_compute. repeat split; reflexivity. Qed.
+
+(** ckk_generator: [ckk_generator_erase] holds in every mode.  Before the repair the contents
+    manager yielded, with an explicit bound (the mode used by rnp), partitions that differ only
+    in their contents separately (16 yields against 15 on this input). *)
 Definition gen_items : list named := [(1, 1); (2, 1); (3, 2); (4, 2); (5, 3)].
 
-Example ckk_generator_erase_false_bounded :
-  length (ckk_generator vl nm true 2 gen_items (Some (-10))) = 16%nat /\
-  length (ckk_generator vl nm false 2 gen_items (Some (-10))) = 15%nat.
+Example ckk_generator_erase_bounded :
+  length (ckk_generator vl nm true 2 gen_items (Some (-10))) = 15%nat /\
+  map erase (ckk_generator vl nm true 2 gen_items (Some (-10))) =
+    ckk_generator vl nm false 2 gen_items (Some (-10)).
 Proof. vm_compute. split; reflexivity. Qed.
 
-(** In the default mode (bound -inf) only strict improvements are yielded and the equation
-    held on every input tried (all lists of 5..6 named items with values in 1..4, 2..4 bins).
-    OPEN: forall k items, nonneg items -> names_ok items ->
-            map erase (ckk_generator valueof nameof true k items None) =
-            ckk_generator valueof nameof false k items None.
-    (The last element of both lists is related by [ckk_erase_2] / [ckk_erase_value], since
-    ckk returns the last yield; the earlier yields depend on the order in which subtrees
-    with tied keys are visited, which differs between the managers.) *)
 Example ckk_generator_default_example :
   map erase (ckk_generator vl nm true 3 gen_items None) = ckk_generator vl nm false 3 gen_items None /\
   ckk_generator vl nm false 3 gen_items None = [[(3, []); (3, []); (3, [])]].
@@ -1257,14 +1129,17 @@ Example ex_dp :
 Proof. vm_compute. split; reflexivity. Qed.
 
 (** partition(optimal, 2, {"a":1,"b":2,"c":3,"d":3,"e":5,"f":9,"g":9}, outputtype=Sums) = [16,16];
-    partition(optimal, 3, the same) = [['a','g'],['c','d','e'],['b','f']] *)
+    partition(optimal, 3, the same) = [['a','f'],['c','d','e'],['b','g']]
+    (NOTE: before the repair that de-duplicates the children of a node by their sums, the model and
+    the doctest of complete_karmarkar_karp_sy.py gave [['a','g'],['c','d','e'],['b','f']]: the two
+    combinations have the same sums [10;11;11] and only the first one is explored now) *)
 Definition items_ag : list named := [(1, 1); (2, 2); (3, 3); (4, 3); (5, 5); (6, 9); (7, 9)].
 
 Example ex_ckk :
   run_output_r OSums (fun keep => ckk vl nm keep 2 items_ag) = Ok (OutSums [16; 16]) /\
   run_output_r OSums (fun keep => ckk vl nm keep 3 items_ag) = Ok (OutSums [10; 11; 11]) /\
   run_output_r OPartition (fun keep => ckk vl nm keep 3 items_ag) =
-    Ok (OutLists [[(1, 1); (7, 9)]; [(3, 3); (4, 3); (5, 5)]; [(2, 2); (6, 9)]]).
+    Ok (OutLists [[(1, 1); (6, 9)]; [(3, 3); (4, 3); (5, 5)]; [(2, 2); (7, 9)]]).
 Proof. vm_compute. repeat split; reflexivity. Qed.
 
 Example ex_snp_rnp :
@@ -1335,10 +1210,11 @@ Check C06_first_fit. Check C06_first_fit_decreasing. Check C06_best_fit. Check C
 Check C06_bin_completion.
 Check C06_cover_decreasing. Check C06_cover_twothirds. Check C06_cover_threequarters.
 Check C06_greedy_lists. Check C06_cbldm.
-Check all_combinations_false_in. Check ckk_bound_admissible_all.
-Check ckk_sums_partition. Check ckk_sums_optimal. Check ckk_erase_value. Check ckk_erase_2.
+Check ckk_children_erase. Check ckk_explore_erase. Check ckk_run_erase.
+Check ckk_erase. Check ckk_erase_sums. Check ckk_generator_erase. Check ckk_nodes_erase.
+Check ckk_sums_partition. Check ckk_sums_optimal. Check ckk_erase_2.
 Check snp_erase. Check rnp_erase.
-Check C06_ckk_2. Check C06_ckk_difference. Check C06_ckk_bincount. Check C06_snp. Check C06_rnp.
+Check C06_ckk. Check C06_ckk_bincount. Check C06_snp. Check C06_rnp.
 
 Print Assumptions sums_erase.
 Print Assumptions length_erase.
@@ -1371,12 +1247,17 @@ Print Assumptions C06_greedy_lists.
 Print Assumptions C06_cbldm.
 Print Assumptions ckk_sums_partition.
 Print Assumptions ckk_sums_optimal.
-Print Assumptions ckk_erase_value.
+Print Assumptions ckk_children_erase.
+Print Assumptions ckk_explore_erase.
+Print Assumptions ckk_run_erase.
+Print Assumptions ckk_erase.
+Print Assumptions ckk_erase_sums.
+Print Assumptions ckk_generator_erase.
+Print Assumptions ckk_nodes_erase.
 Print Assumptions ckk_erase_2.
 Print Assumptions snp_erase.
 Print Assumptions rnp_erase.
-Print Assumptions C06_ckk_2.
-Print Assumptions C06_ckk_difference.
+Print Assumptions C06_ckk.
 Print Assumptions C06_ckk_bincount.
 Print Assumptions C06_snp.
 Print Assumptions C06_rnp.
